@@ -564,15 +564,18 @@ def fs_case_term(events):
     def obs(pairs):
         return lst(["(%s, %s)" % (zl(t), "None" if sn is None else "(Some %s)" % zl(cid(sn))) for t, sn in pairs])
 
-    ops = []
+    ops, started_from = [], set()
     for e in events:
         if e[0] == "copy":
             _, src, tgt, before, after, tgt_snap, err = e
             if before is not None:
                 ops.append("(FsWrite %s %s, %s)" % (zl(src), zl(cid(before)), obs([(src, before)])))
             ops.append("(FsCopy %s %s, %s)" % (zl(src), zl(tgt), obs([(src, after), (tgt, tgt_snap)])))
+            started_from.add(tgt)
         elif e[0] == "delete":
             ops.append("(FsDelete %s, [])" % zl(e[1]))
+        elif e[0] == "launch" and e[1] in started_from:
+            ops.append("(FsSchedule %s, %s)" % (zl(e[1]), obs([(e[1], e[2])])))
     return lst(ops)
 
 
